@@ -124,7 +124,9 @@ def syntax_faults(st_text, syn, every):
         if not t.isspace():
             last = t
     # ... and two adjacent string literals are one string
-    keeps_valid = lambda p: nxt[p][:1] in ("{", "[") or (prv[p][:1] == '"' and nxt[p][:1] == '"')
+    # ... and two adjacent integers are a range in a slice or bit selection under the liberal reading of Grammar.tla ("3 -1")
+    keeps_valid = lambda p: (nxt[p][:1] in ("{", "[") or (prv[p][:1] == '"' and nxt[p][:1] == '"')
+                             or (prv[p][:1].isdigit() and nxt[p][:1].isdigit()))
     dels = [(p, t) for p, t in spans if t in syn["deletable"] and not (t == "," and keeps_valid(p))]
     ins = [p for p, t in spans if not t.isspace() and p > 0]
     if not every:
